@@ -523,6 +523,54 @@ def _far_from_tie(a, b, box, n=(0, 0, 0)):
     return bool(np.all(np.abs(np.abs(f - np.round(f)) - 0.5) > 1e-4))
 
 
+def task_numeric_reuse(tier, seed):
+    """The same Residue objects used for several distances with their atoms moved in between -- through the residue-level setter, through a
+    live atom view (res[i].position = p), by Residue.move: every distance must be the minimum-image distance of the ACTUAL centres."""
+    from gaddlemaps.components import AtomGro, Residue
+    rng = np.random.default_rng(91 + seed)
+    N = 60 if tier == "quick" else 600
+    bad_first, nbad, nev = None, 0, 0
+    for t in range(N):
+        L = rng.uniform(1.0, 12.0, 3)
+        box = np.diag(L)
+        na, nb = int(rng.integers(1, 4)), int(rng.integers(1, 4))
+        mk = lambda n, rid: Residue([AtomGro([rid, "RES", "A%d" % k, k + 1] + [float(x) for x in rng.uniform(-1, 1, 3) * L]) for k in range(n)])
+        ra, rb = mk(na, 1), mk(nb, 2)
+        log = []
+        for step in range(4):
+            how = int(rng.integers(0, 4)) if step else -1
+            tgt = ra if rng.integers(0, 2) else rb
+            if how == 0:
+                tgt.atoms_positions = np.array(tgt.atoms_positions, dtype=float) + rng.uniform(-2, 2, 3) * L
+            elif how == 1:
+                i = int(rng.integers(0, len(tgt)))
+                tgt[i].position = np.array(tgt[i].position, dtype=float) + rng.uniform(-2, 2, 3) * L       # live view
+            elif how == 2:
+                tgt.move(rng.uniform(-2, 2, 3) * L)
+            elif how == 3:
+                for atom in tgt:
+                    atom.position = np.array(atom.position, dtype=float) + np.array([0.3, -0.2, 0.1]) * L  # iteration views
+            log.append(how)
+            ca = np.mean(np.array(ra.atoms_positions, dtype=float), axis=0)
+            cb = np.mean(np.array(rb.atoms_positions, dtype=float), axis=0)
+            if not _far_from_tie(ca, cb, box):
+                continue
+            got = float(ra.distance_to(rb, box_vects=box))
+            want = brute_min_image(ca, cb, box)
+            nev += 1
+            if abs(got - want) > 1e-9 * max(1.0, float(L.max()), float(np.abs(cb - ca).max())):
+                nbad += 1
+                if bad_first is None:
+                    bad_first = (f"after operations {log} (0 setter, 1 atom view, 2 move, 3 iteration views) the distance is {got!r}, "
+                                 f"minimum over images of the actual centres {want!r}", {"mode": "reuse", "seed": seed, "tier": tier, "signature": "reuse"})
+                break
+    oid = f"{PROP}/distance_to/bounded.same-residues-reused-with-atoms-moved-in-between"
+    if bad_first:
+        return [ob(oid, "refuted", kind="bounded", engine="smallscope", backend="numeric-contract", evaluations=nev,
+                   reason=f"{nbad} scenario(s) violate; first: {bad_first[0]}", cex=bad_first[1])]
+    return [ob(oid, "discharged", kind="bounded", engine="smallscope", backend="numeric-contract", evaluations=nev, sample={"scenarios": N})]
+
+
 def task_numeric(tier, seed):
     rng = np.random.default_rng(7 + seed)
     cases = []
@@ -616,10 +664,16 @@ def tasks(prop, tier, seed):
         ("distance_to/shift-self", task_shift, (seed, "self"), lim),
         ("distance_to/invflag", task_invflag, (seed,), lim),
         ("distance_to/numeric", task_numeric, (tier, seed), lim),
+        ("distance_to/numeric-reuse", task_numeric_reuse, (tier, seed), lim),
     ]
 
 
 def replay(prop, cex):
+    if cex.get("mode") == "reuse":
+        r = task_numeric_reuse(cex.get("tier", "quick"), cex.get("seed", 0))
+        bad = [o for o in r if o.get("status") == "refuted"]
+        return {"reproduced": bool(bad), "observed": bad[0].get("reason") if bad else None,
+                "expected": "every distance is the minimum-image distance of the residues' actual centres", "inputs": cex}
     a, b, box = cex["a"], cex["b"], cex["box"]
     n = tuple(cex.get("n") or (1, -2, 3))
     if abs(np.linalg.det(np.array(box, float))) < 1e-12:
